@@ -103,7 +103,7 @@ class Degenerate:
             t.attrs[r.choice(["mathcolor", "class", "data-foo", "stretchy", "form", "lspace"])] = r.choice(["red", "a&b", "x<y", "true", "prefix", "it's \"q\""])
         return t
 
-    PIECES = list("abfxyzAB12") + ["′", "'", "″", ".", "..", "-", "−", "|", "_", ":", ",", "!", "=", "+", " ", " ", "…", "°", "*", "^", "~", "π", "dx", "sin", "--"]
+    PIECES = list("abfxyzAB12") + ["′", "'", "″", ".", "..", "-", "−", "|", "_", ":", ",", "!", "=", "+", " ", " ", "…", "°", "*", "^", "~", "π", "dx", "sin", "--", "(", ")", "(", ")"]
 
     def mixed_token(self):
         """token whose text mixes letters/digits with the characters that the clean-up treats specially (primes, dots, dashes, bars, ...)"""
